@@ -66,6 +66,13 @@ TEXT = {
         "design_ref": "DESIGN.md §5 C14", "note": "Trusted: as C13 plus the model of the Display impls. The whole-description round-trip theorem is not yet proved (stated as C14_statement). Known findings: commented enum variants (custom and inline).",
         "technique": "Lean 4 proof (comment layer; counterexample by kernel evaluation) on renderer + parser models; round-trip correspondence run through the public constructors",
     },
+    "C19": {
+        "level": "PARTIAL. Machine-checked: the write-all loop hands the whole buffer to the pipe for every partial-write behaviour; composed with the C02 refinement and C01 framing theorem, for every message list, partial-write schedule, read-size schedule and growth step the peer's receives return exactly the messages sent, in order, then EOF; "
+                 "ids from a counter are distinct; the cancellation clause is refuted on the model (a flush abandoned after a partial write makes the next send emit a frame never sent) and what does hold (nothing written => nothing corrupted) is proved. "
+                 "Real sockets: 32 (quick) / 300 (thorough) transfers up to 1 MiB in both directions on tokio and smol, bound and inherited-fd listeners with 1..8 connections, cancelled sends.",
+        "design_ref": "DESIGN.md §5 C19", "note": "Trusted: Lean kernel; kernel socket = byte FIFO with partial writes (assumption); runtime scheduling, fd inheritance observed only. Known finding: a send abandoned after a partial write corrupts the peer's stream.",
+        "technique": "Lean 4 proof (composition of the Tx refinement, a pipe lemma and the Rx framing theorem; counterexample by kernel evaluation); end-to-end runs on real Unix sockets with both runtimes",
+    },
     "C20": {
         "level": "Machine-checked theorems about the adapter models over a capacity-1 broadcast channel model: the tokio adapter (explicit lag-skipping loop) and the smol adapter are the same function; a poll is pending iff nothing new was set, otherwise yields the most recent value marked continuing and brings the subscriber up to date (convergence, order by cursor monotonicity); "
                  "the subscription never ends while the state exists; a one-shot yields one final item and then ends. Both real crates are run on every history of length <= 7 (exhaustive) and 3000/60000 random ones and compared with the model, each other and the oracle.",
